@@ -2,6 +2,10 @@ import PyodaProofs.C04
 import PyodaProofs.C04Spec
 import PyodaProofs.C04Tail
 import PyodaProofs.C04TailRules
+import PyodaProofs.C04Seq
+import PyodaProofs.C04TailEnd
+import PyodaProofs.C04Zone
+import PyodaProofs.C04Walk
 
 #print axioms Pyoda.C04.search_spec
 #print axioms Pyoda.C04.precalc_get_contains
@@ -23,3 +27,30 @@ import PyodaProofs.C04TailRules
 #print axioms Pyoda.C04.tailOK_sound
 #print axioms Pyoda.C04.tail_partition_of_tailOK
 #print axioms Pyoda.C04.tail_partition_of_tailOK_stdFirst
+#print axioms Pyoda.C04.SeqSpec.partition
+#print axioms Pyoda.C04.SeqSpec.index_unique
+#print axioms Pyoda.C04.recSpec_of_rule_end
+#print axioms Pyoda.C04.getD_last
+#print axioms Pyoda.C04.getS_last
+#print axioms Pyoda.C04.ruleOKE_sound
+#print axioms Pyoda.C04.tailOKE_sound
+#print axioms Pyoda.C04.tail_seq
+#print axioms Pyoda.C04.tail_partition_end
+#print axioms Pyoda.C04.tail_valid
+#print axioms Pyoda.C04.tail_walls
+#print axioms Pyoda.C04.tailLen_sound
+#print axioms Pyoda.C04.SeqSpec.glue
+#print axioms Pyoda.C04.stored_seq
+#print axioms Pyoda.C04.seam_seq
+#print axioms Pyoda.C04.zoneSeq_spec
+#print axioms Pyoda.C04.zoneOK_sound
+#print axioms Pyoda.C04.zoneOK_gives_spec
+#print axioms Pyoda.C04.zoneOK_sound_max
+#print axioms Pyoda.C04.maximal_differ
+#print axioms Pyoda.C04.walk_partition
+#print axioms Pyoda.C04.zoneOK_walk
+#print axioms Pyoda.C04.dataOK_zoneSeq
+#print axioms Pyoda.C04.dataOK_walk
+#print axioms Pyoda.C04.fixed_zoneSeq
+#print axioms Pyoda.C04.adjacent_differ
+#print axioms Pyoda.C04.adjacent_differ_notail
